@@ -5,6 +5,10 @@
    set_allowance, spend_allowance, allowance_data}, pausable::{pause, unpause}); the compliance
    contract and the identity verifier are inputs of every call ([c_orc]) and everything they are
    asked or told is logged ([idv_log], [cmp_log] = the log of the call that led to the state).
+   [c_orc c a] = the answers, during call c, of the collaborator contract at address a;
+   [eff_orc s c] = the answers the token actually receives: those of the verifier / compliance
+   contract it CURRENTLY points at ([link_idv s] / [link_cmp s], set by set_identity_verifier /
+   set_compliance).
    [step hc s c] = (state after the call, outcome); a failing call changes nothing.
    [run hc init cs] = the state after the call sequence [cs] on a fresh token.
    The token theorems hold for EVERY compliance contract and identity verifier; two further
@@ -31,11 +35,11 @@ Theorem C04_gates : forall (hc : hostcfg) (s : state) (c : call) (s' : state) (r
   | Transfer from to amt | TransferFrom _ from to amt =>
       paused s = false /\ aflag s from = false /\ aflag s to = false /\
       0 <= amt <= bal s from - frozen s from /\
-      idv_ok (c_orc c) from = true /\ idv_ok (c_orc c) to = true /\ o_can_transfer (c_orc c) = true /\
+      idv_ok (eff_orc s c) from = true /\ idv_ok (eff_orc s c) to = true /\ o_can_transfer (eff_orc s c) = true /\
       In (QVerify from) (idv_log s') /\ In (QVerify to) (idv_log s') /\
       In (QCanTransfer from to amt) (cmp_log s')
   | Mint to amt _ =>
-      0 <= amt /\ idv_ok (c_orc c) to = true /\ o_can_create (c_orc c) = true /\
+      0 <= amt /\ idv_ok (eff_orc s c) to = true /\ o_can_create (eff_orc s c) = true /\
       In (QVerify to) (idv_log s') /\ In (QCanCreate to amt) (cmp_log s')
   | _ => True
   end.
@@ -104,6 +108,74 @@ Theorem C04_movement_exact : forall (hc : hostcfg) (s : state) (c : call) (s' : 
 Proof. exact movement_exact. Qed.
 Print Assumptions C04_movement_exact.
 
+(* HOLDER-INITIATED.  In ANY state: a transfer succeeds only with the authorisation of the holder
+   it debits, a transfer_from only with the authorisation of the spender and within the live
+   allowance the holder granted that spender, an approve only with the owner's authorisation;
+   the supervisory and administrative entry points of the wrapper contract only with that of the
+   operator they name. *)
+Theorem C04_holder_authorisation : forall (hc : hostcfg) (s : state) (c : call) (s' : state) (r : ret),
+  step hc s c = (s', Ok r) ->
+  match c_op c with
+  | Transfer from _ _ => has_auth (c_auths c) from = true
+  | TransferFrom sp from _ amt => has_auth (c_auths c) sp = true /\ 0 <= amt <= allowance s from sp
+  | Approve owner _ _ _ => has_auth (c_auths c) owner = true
+  | Mint _ _ opr | Burn _ _ opr | ForcedTransfer _ _ _ opr | RecoverBalance _ _ opr
+  | SetAddressFrozen _ _ opr | Freeze _ _ opr | Unfreeze _ _ opr | Pause opr | Unpause opr
+  | SetCompliance _ opr | SetIdentityVerifier _ opr => has_auth (c_auths c) opr = true
+  | Advance _ => True
+  end.
+Proof. exact holder_authorisation. Qed.
+Print Assumptions C04_holder_authorisation.
+
+(* PAUSE FLAG AND LINKS.  In ANY state: pause succeeds only when not paused and sets the flag,
+   unpause only when paused and clears it; set_compliance / set_identity_verifier re-point the
+   token at exactly the contract they name (so that from then on [eff_orc] is THAT contract's
+   answers); no other successful call touches the flag or either link. *)
+Theorem C04_pause_and_links : forall (hc : hostcfg) (s : state) (c : call) (s' : state) (r : ret),
+  step hc s c = (s', Ok r) ->
+  match c_op c with
+  | Pause _ => paused s = false /\ paused s' = true /\ link_cmp s' = link_cmp s /\ link_idv s' = link_idv s
+  | Unpause _ => paused s = true /\ paused s' = false /\ link_cmp s' = link_cmp s /\ link_idv s' = link_idv s
+  | SetCompliance w _ => paused s' = paused s /\ link_cmp s' = Some w /\ link_idv s' = link_idv s
+  | SetIdentityVerifier w _ => paused s' = paused s /\ link_cmp s' = link_cmp s /\ link_idv s' = Some w
+  | RecoverBalance _ _ _ => True          (* C04_recover (pause flag), C04_links (links) *)
+  | _ => paused s' = paused s /\ link_cmp s' = link_cmp s /\ link_idv s' = link_idv s
+  end.
+Proof. exact pause_and_links. Qed.
+Print Assumptions C04_pause_and_links.
+
+(* ... the links after ANY call of any kind, successful or not. *)
+Theorem C04_links : forall (hc : hostcfg) (s : state) (c : call) (s' : state) (o : res ret),
+  step hc s c = (s', o) ->
+  link_cmp s' = (match c_op c with SetCompliance w _ => if is_ok o then Some w else link_cmp s | _ => link_cmp s end) /\
+  link_idv s' = (match c_op c with SetIdentityVerifier w _ => if is_ok o then Some w else link_idv s | _ => link_idv s end).
+Proof. exact links_step. Qed.
+Print Assumptions C04_links.
+
+(* ALLOWANCES AND SUPPLY.  In ANY state a successful call changes the allowance table only as
+   follows: approve sets the approved pair to the amount, transfer_from lowers the (holder,
+   spender) pair by the amount, the passing of ledgers can only make an allowance expire (drop to
+   0); every other call, and every other pair, is untouched.  The supply changes by mint (+) and
+   burn (-) only. *)
+Theorem C04_allowance_frame : forall (hc : hostcfg) (s : state) (c : call) (s' : state) (r : ret) (o sp : addr),
+  step hc s c = (s', Ok r) ->
+  match c_op c with
+  | Approve ow sp' amt _ =>
+      allowance s' o sp = if N.eqb o ow && N.eqb sp sp' then amt else allowance s o sp
+  | TransferFrom spd from _ amt =>
+      allowance s' o sp = if N.eqb o from && N.eqb sp spd then allowance s o sp - amt else allowance s o sp
+  | Advance _ => allowance s' o sp = allowance s o sp \/ allowance s' o sp = 0
+  | _ => allowance s' o sp = allowance s o sp
+  end.
+Proof. exact allowance_frame. Qed.
+Print Assumptions C04_allowance_frame.
+
+Theorem C04_supply_frame : forall (hc : hostcfg) (s : state) (c : call) (s' : state) (r : ret),
+  step hc s c = (s', Ok r) ->
+  supply s' = supply s + (match c_op c with Mint _ amt _ => amt | Burn _ amt _ => - amt | _ => 0 end).
+Proof. exact supply_frame. Qed.
+Print Assumptions C04_supply_frame.
+
 (* RECOVERY.  In every reachable state a successful recover_balance(old, new) went to the
    recovery target registered for [old], which is verified; it returns whether there was a
    balance; if there was (and old <> new) the WHOLE balance and the WHOLE frozen amount moved on
@@ -113,7 +185,7 @@ Theorem C04_recover : forall (hc : hostcfg) (cs : list call) (c : call) (old new
   let s := run hc init cs in
   c_op c = RecoverBalance old new opr ->
   step hc s c = (s', Ok r) ->
-  recovery_target (c_orc c) old = Some new /\ idv_ok (c_orc c) new = true /\
+  recovery_target (eff_orc s c) old = Some new /\ idv_ok (eff_orc s c) new = true /\
   r = Some (negb (bal s old =? 0)) /\
   paused s' = paused s /\
   (bal s old <> 0 -> old <> new ->
@@ -181,7 +253,7 @@ Theorem C04_prefix_refuted :
     step_prefix hc s c = (s', Ok None) /\
     paused s = true /\ aflag s from = true /\ aflag s to = true /\
     bal s from - frozen s from < amt /\
-    idv_ok (c_orc c) from = false /\ idv_ok (c_orc c) to = false /\ o_can_transfer (c_orc c) = false /\
+    idv_ok (eff_orc s c) from = false /\ idv_ok (eff_orc s c) to = false /\ o_can_transfer (eff_orc s c) = false /\
     bal s' from < frozen s' from /\
     snd (step hc (run hc init cs) c) = Fail.
 Proof. exact prefix_refuted. Qed.
@@ -193,6 +265,7 @@ Print Assumptions C04_prefix_refuted.
    the diff of the model with itself is empty.  It is what is evaluated on the traces of the
    implementation. *)
 Theorem C04_monitor_accepts_model : forall (hc : hostcfg) (univ : list addr) (cs : list call),
+  forallb (wf_call univ) cs = true ->       (* every party named by a call is in the observed universe (checked by [check]) *)
   check (observe_model hc univ cs) = (0%N, 0%N, 0%N).
 Proof. exact check_accepts_model. Qed.
 Print Assumptions C04_monitor_accepts_model.
@@ -266,6 +339,7 @@ Print Assumptions C04_compliance_modules_once.
 (* The monitor of the compliance layer (Run/C04Compliance.v) accepts every run of its model. *)
 Theorem C04_compliance_monitor_accepts_model : forall (cf : ccfg) (toks : list addr) (cs : list ccall),
   0 <= max_modules cf ->
+  forallb (cwf_call toks) cs = true ->       (* every token named by a call is in the observed token universe *)
   check (observe_compliance_model cf toks cs) = (0%N, 0%N, 0%N).
 Proof. exact check_compliance_accepts_model. Qed.
 Print Assumptions C04_compliance_monitor_accepts_model.
@@ -321,10 +395,10 @@ Print Assumptions C04_identity_monitor_accepts_model.
    CanTransfer hook refuses; a successful mint: recipient verified, no CanCreate module refuses. *)
 Theorem C04_gates_composed : forall (hc : hostcfg) (s : state) (c : call) (s' : state) (r : ret)
     (cf : ccfg) (cst : cstate) (deny : list addr) (w : iworld),
-  ((forall a, idv_ok (c_orc c) a = is_ok (iverify_identity w a)) /\
-   (forall f t amt tok, Some (o_can_transfer (c_orc c)) =
+  ((forall a, idv_ok (eff_orc s c) a = is_ok (iverify_identity w a)) /\
+   (forall f t amt tok, Some (o_can_transfer (eff_orc s c)) =
       match snd (cstep cf cst (mkCC (CCanTransfer f t amt tok) [] deny)) with Ok r => r | Fail => None end) /\
-   (forall t amt tok, Some (o_can_create (c_orc c)) =
+   (forall t amt tok, Some (o_can_create (eff_orc s c)) =
       match snd (cstep cf cst (mkCC (CCanCreate t amt tok) [] deny)) with Ok r => r | Fail => None end)) ->
   step hc s c = (s', Ok r) ->
   match c_op c with
@@ -339,6 +413,20 @@ Theorem C04_gates_composed : forall (hc : hostcfg) (s : state) (c : call) (s' : 
   end.
 Proof. exact gates_composed. Qed.
 Print Assumptions C04_gates_composed.
+
+(* ... whose hypothesis can be met in every registry state, compliance state and set of refusing
+   modules (by the collaborator that answers exactly as the other two models compute).  The stack
+   run itself rests on C04_stack_gate below, not on this theorem. *)
+Theorem C04_composed_hypothesis_satisfiable : forall (s : state) (o : op) (au : list addr) (cf : ccfg)
+    (cst : cstate) (deny : list addr) (w : iworld),
+  let c := mkCall o au (fun _ => canonical_orc w cst deny) in
+  (forall a, idv_ok (eff_orc s c) a = is_ok (iverify_identity w a)) /\
+  (forall f t amt tok, Some (o_can_transfer (eff_orc s c)) =
+     match snd (cstep cf cst (mkCC (CCanTransfer f t amt tok) [] deny)) with Ok r => r | Fail => None end) /\
+  (forall t amt tok, Some (o_can_create (eff_orc s c)) =
+     match snd (cstep cf cst (mkCC (CCanCreate t amt tok) [] deny)) with Ok r => r | Fail => None end).
+Proof. exact answers_of_canonical. Qed.
+Print Assumptions C04_composed_hypothesis_satisfiable.
 
 (* ------------------------------------------------------------------------------------------ *)
 (* THE WHOLE STACK (Run/C04Stack.v).  [sstep] is the composition actually run against the real
@@ -384,6 +472,7 @@ Print Assumptions C04_stack_gate.
    accepts every run of the composition. *)
 Theorem C04_stack_monitor_accepts_model : forall (hc : hostcfg) (cf : ccfg) (univ : list addr) (tok : addr) (cs : list scall),
   0 <= max_modules cf ->
+  forallb (swf univ tok) cs = true ->
   check (observe_stack_model hc cf univ tok cs) = (0%N, 0%N, 0%N).
 Proof. exact check_stack_accepts_model. Qed.
 Print Assumptions C04_stack_monitor_accepts_model.
@@ -517,8 +606,8 @@ Example C04_monitor_rejects_lapsed_state :
   snd (fst (check (tamper (set_accts [(100, 0, true); (40, 15, false); (0, 0, false); (0, 0, false)]) (ex_trace h)))) = 9%N /\
   snd (fst (check (tamper (set_accts [(0, 0, false); (40, 15, false); (0, 0, false); (0, 0, false)]) (ex_trace h)))) = 9%N /\
   snd (fst (check (tamper (set_paused_obs false) (ex_trace h)))) = 9%N /\
-  snd (fst (check (tamper (set_links false true) (ex_trace h)))) = 9%N /\
-  snd (fst (check (tamper (set_links true false) (ex_trace h)))) = 9%N.
+  snd (fst (check (tamper (set_links None (Some 60%N)) (ex_trace h)))) = 9%N /\
+  snd (fst (check (tamper (set_links (Some 50%N) None) (ex_trace h)))) = 9%N.
 Proof. vm_compute. repeat split; reflexivity. Qed.
 
 Example C04_compliance_monitor_rejects_lapsed_state :
@@ -544,4 +633,60 @@ Example C04_stack_nonvacuous :
   snd (fst (check (sgraft good (sx_trace (sx_history ++ [STok (Transfer 0%N 1%N 10) [0%N] [] revoked]))))) = 8%N /\
   snd (fst (check (sgraft good (sx_trace (sx_history ++ [STok (Transfer 0%N 1%N 10) [0%N] [20%N] sx_w]))))) = 8%N /\
   snd (fst (check (sgraft good (sx_trace (sx_history ++ [STok (Transfer 1%N 0%N 10) [0%N] [] sx_w]))))) = 8%N.
+Proof. vm_compute. repeat split; reflexivity. Qed.
+
+(* Frame conditions (review findings 2.1 a-e).  The monitor rejects: an allowance nobody granted
+   appearing during an unrelated successful call, during Advance 0, or in the observation of a
+   failing call; a failing transfer_from that burnt the allowance; a mint that does not show in the
+   supply; a call naming a party outside the observed universe; an allowance matrix of the wrong
+   shape. *)
+Definition Z16 : list Z := [0;0;0;0; 0;0;0;0; 0;0;0;0; 0;0;0;0].
+Definition A12 : list Z := [0;0;0;0; 0;0;10;0; 0;0;0;0; 0;0;0;0].   (* allowance(1 -> 2) = 10 *)
+Example C04_monitor_rejects_frame_violations :
+  let deny := fun _ : addr => mkOracle ex_univ false true [] in
+  snd (fst (check (tamper (set_allow A12) (ex_trace (ex_history ++ [by3 (Freeze 1%N 1 3%N)]))))) = 8%N /\
+  snd (fst (check (tamper (set_allow A12) (ex_trace (ex_history ++ [by3 (Advance 0)]))))) = 8%N /\
+  snd (fst (check (tamper (set_allow A12) (ex_trace (ex_history ++ [mkCall (Transfer 1%N 2%N 26) [1%N] ex_orc]))))) = 8%N /\
+  (let h := ex_history ++ [mkCall (Approve 1%N 2%N 10 500) [1%N] ex_orc; mkCall (TransferFrom 2%N 1%N 3%N 10) [2%N] deny] in
+   check (ex_trace h) = (0%N, 0%N, 0%N) /\ snd (fst (check (tamper (set_allow Z16) (ex_trace h)))) = 9%N) /\
+  snd (fst (check (tamper (set_supply_obs 140) (ex_trace (ex_history ++ [by3 (Mint 2%N 5 3%N)]))))) = 8%N /\
+  snd (fst (check (ex_trace (ex_history ++ [by3 (SetAddressFrozen 7%N true 3%N)])))) = 8%N /\
+  snd (fst (check (ex_trace (ex_history ++ [mkCall (Transfer 7%N 2%N 0) [7%N] ex_orc])))) = 8%N /\
+  snd (fst (check (tamper (set_allow []) (ex_trace (ex_history ++ [by3 (Advance 1)]))))) = 8%N.
+Proof. vm_compute. repeat split; reflexivity. Qed.
+
+(* The CURRENTLY registered collaborators (review finding 4-1 / 5-1).  Two compliance contracts
+   (50 refuses creations, 51 approves) and two verifiers (60 knows everybody, 61 nobody): after
+   re-pointing, the answers of the newly registered contract count, and the monitor rejects a trace
+   in which the previously registered contract was the one asked, or whose link getter still shows
+   the old address. *)
+Definition two_orc : addr -> oracle :=
+  fun a => if N.eqb a 50 then mkOracle ex_univ true false []
+           else if N.eqb a 51 then mkOracle ex_univ true true []
+           else if N.eqb a 60 then mkOracle ex_univ true true []
+           else mkOracle [] true true [].
+Definition sw (o : op) (au : list addr) : call := mkCall o au two_orc.
+Example C04_currently_registered_collaborator :
+  let h := [sw (SetCompliance 50%N 3%N) [3%N]; sw (SetIdentityVerifier 60%N 3%N) [3%N]] in
+  (* compliance 50 refuses the mint; after switching to 51 the same mint succeeds *)
+  snd (step ex_cfg (run ex_cfg init h) (sw (Mint 0%N 5 3%N) [3%N])) = Fail /\
+  snd (step ex_cfg (run ex_cfg init (h ++ [sw (SetCompliance 51%N 3%N) [3%N]])) (sw (Mint 0%N 5 3%N) [3%N])) = Ok None /\
+  (* after switching the verifier to 61 (which verifies nobody) it fails again *)
+  snd (step ex_cfg (run ex_cfg init (h ++ [sw (SetCompliance 51%N 3%N) [3%N]; sw (SetIdentityVerifier 61%N 3%N) [3%N]]))
+         (sw (Mint 0%N 5 3%N) [3%N])) = Fail /\
+  let t := ex_trace (h ++ [sw (SetCompliance 51%N 3%N) [3%N]; sw (Mint 0%N 5 3%N) [3%N]]) in
+  check t = (0%N, 0%N, 0%N) /\
+  snd (fst (check (tamper (set_from (Some 50%N) (Some 60%N)) t))) = 4%N /\     (* the stale compliance contract was asked *)
+  snd (fst (check (tamper_at 1 (set_links (Some 50%N) (Some 60%N)) t))) = 3%N.   (* set_compliance did not re-point *)
+Proof. vm_compute. repeat split; reflexivity. Qed.
+
+(* ... and in the other families: a compliance notification naming a token outside the observed
+   token universe is a malformed trace; a FAILING token call in the stack may not leave an allowance
+   or a changed supply behind. *)
+Example C04_other_families_reject_frame_violations :
+  snd (fst (check (cex_trace (cex_history ++ [mkCC (CTransferred 0 1 50 15)%N [15%N] []])))) = 8%N /\
+  (let t := sx_trace (sx_history ++ [STok (Transfer 0%N 1%N 10) [0%N] [20%N] sx_w]) in
+   check t = (0%N, 0%N, 0%N) /\
+   snd (fst (check (sset_tok_obs (set_allow A12) t))) = 8%N /\
+   snd (fst (check (sset_tok_obs (set_supply_obs 0) t))) = 8%N).
 Proof. vm_compute. repeat split; reflexivity. Qed.
